@@ -35,7 +35,7 @@ RULE = ("Enumerated: every (quantity class, declared unit) - 41 classes, 838 uni
         "random class/unit/second unit with 1-4 values (ints up to 2^53, floats of magnitude 1e-30..1e30, +-0.0, "
         "negatives). Oracle: Q(v,u).si bit-equal to the correctly rounded exact product v*factor(u) (fractions); "
         "displayvalue within 4 ulp of v; unit == u; Q(v) uses the base unit; as_unit keeps si bit-identical and "
-        "sets the unit; == != < <= > >= neg abs + - equal the float operation on the two SI values with the left "
+        "sets the unit; == != < <= > >= (also against NaN and infinite quantities) neg abs + - equal the float operation on the two SI values with the left "
         "operand's unit (second operand in another unit, once with an arbitrary and once with the same display "
         "value); str()/repr() work, end with the display unit and start with the display value; every unit has a "
         "description; alias spellings share one factor; base unit factor is exactly 1; compound units equal the "
@@ -588,6 +588,22 @@ def _run_unit(case, out):
                 out.label("display-order!=si-order")
             if ti_ >= 2 and si != s2 and abs(si - s2) <= 1e-12 * max(abs(si), abs(s2)):
                 out.label("near-equal-si-values-compared")
+        # non-finite SI values (NaN from inf - inf, infinities): the comparisons are still those of the SI floats
+        for special in (math.nan, math.inf, -math.inf):
+            try:
+                p = c(special, u2)
+                s2 = float.__float__(p)
+                for a_, b_, x_, y_ in ((q, p, si, s2), (p, q, s2, si), (p, p, s2, s2)):
+                    got = (a_ == b_, a_ != b_, a_ < b_, a_ <= b_, a_ > b_, a_ >= b_)
+                    wantc = (x_ == y_, x_ != y_, x_ < y_, x_ <= y_, x_ > y_, x_ >= y_)
+                    if got != wantc:
+                        out.fail("order-non-finite" if got[:2] == wantc[:2] else "eq-non-finite",
+                                 dict(det, other=repr(special), got=got, want=wantc))
+                        return
+            except Exception as ex:
+                out.fail("binary-raises", dict(det, other=repr(special), error=repr(ex)))
+                return
+        out.label("non-finite-operands-compared")
     out.info = {"cls": cn, "unit": u, "factor": f}
 
 
